@@ -372,6 +372,34 @@ def acc_C02(w):
 
 
 # =================================================================================================
+# C03 (whole runs: every matching round the run loop starts returns, and leaves no executable pair behind)
+
+
+def acc_C03(w):
+    for e in w.ev:
+        if e[0] == "round_raised":
+            raise Violation("C03.raises", "a matching round started by the run loop raised", "market %s (running=%s): %s" % (e[1], e[2], e[3]))
+        if e[0] != "round":
+            continue
+        bb, ba = e[4]["post"]
+        if e[3] and bb is not None and ba is not None:
+            if bb[0] == 1 or ba[0] == 1:
+                V(bb[0] == 1 and ba[0] == 1 and -bb[1] < ba[1], "C03.executable_left",
+                  "after a matching round of a run an executable pair is left at the top of the book",
+                  "market %s t=%s: best buy key %s, best sell key %s" % (e[1], e[4]["t"], bb, ba))
+            w.wit.inc("whole_run_rounds_leaving_a_two_sided_book")
+        if e[2]:
+            w.wit.inc("whole_run_rounds_with_fills")
+
+
+def on_exc_C03(w):
+    for e in w.ev:
+        if e[0] == "round_raised":
+            return ("C03.raises", "a matching round started by the run loop raised | market %s (running=%s): %s" % (e[1], e[2], e[3]))
+    return None  # other aborted runs belong to the checks that own the scenario families
+
+
+# =================================================================================================
 # C04 (whole runs: accepted volume = fills + volume reported at the first terminal event (or still resting))
 
 
